@@ -286,15 +286,25 @@ pub fn bw_output_empty() {
     core::mem::forget(v);
 }
 
-/// A user-defined fixed-width value type, as the public `Serializable` trait allows.
+/// A user-defined fixed-width value type, as the public `Serializable` trait allows.  Its wire
+/// width (3 bytes) differs from its in-memory size (4 bytes, alignment padding).
 #[derive(Clone, Copy, PartialEq, Eq)]
-pub struct Rgb([u8; 3]);
+pub struct Rgb {
+    id: u16,
+    cat: u8,
+}
+
+#[allow(non_snake_case)]
+fn Rgb(b: [u8; 3]) -> Rgb {
+    Rgb { id: u16::from_le_bytes([b[0], b[1]]), cat: b[2] }
+}
 
 impl Serializable for Rgb {
     fn serialize_to_vec(&self, dst: &mut Vec<u8>) {
-        dst.push(self.0[0]);
-        dst.push(self.0[1]);
-        dst.push(self.0[2]);
+        let b = self.id.to_le_bytes();
+        dst.push(b[0]);
+        dst.push(b[1]);
+        dst.push(self.cat);
     }
     fn deserialize_from_slice(src: &[u8]) -> (Self, &[u8]) {
         (Rgb([src[0], src[1], src[2]]), &src[3..])
